@@ -384,6 +384,16 @@ def caseProg (eS gtS gasS codeS dataS : String) (go : String) : String :=
   | some e, some gtn, some gas, some code, some data => judgeRun (harnessEnv code data []) e gtn (startMachine gas) go
   | _, _, _, _, _ => "bad-op\tagree"
 
+/-- `frame <epoch> <gt> <gas> <code> <calldata> <address> <caller> …`: one child frame of a call tree (CREATE init code or CALLed
+    code) as the tracer saw it, judged on ITS OWN code; the trailing fields (index, factory code, factory input) only make the
+    case replayable -/
+def caseFrame (eS gtS gasS codeS dataS addrS callerS : String) (go : String) : String :=
+  match parseEpoch eS, parseGt gtS, gasS.toNat?, bytesOfHex codeS, bytesOfHex dataS, hexNat addrS, hexNat callerS with
+  | some e, some gtn, some gas, some code, some data, some addr, some caller =>
+    let env := { harnessEnv code data [] with address := addr, caller := caller }
+    judgeRun env e gtn (startMachine gas) go
+  | _, _, _, _, _, _, _ => "bad-op\tagree"
+
 /-- `rdc <returndata> <memLen> <memOff> <dataOff> <len>`: RETURNDATACOPY on a zero memory with a non-empty buffer -/
 def caseRdc (retS memLenS moS doS lenS : String) (go : String) : String :=
   match bytesOfHex retS, memLenS.toNat?, hexNat moS, hexNat doS, hexNat lenS with
@@ -427,6 +437,7 @@ def handle (l : String) : String :=
   | ["ws", a] => caseWs a go
   | ["ms", a, b] => caseMs a b go
   | ["prog", e, gt, gas, code, data] => caseProg e gt gas code data go
+  | "frame" :: e :: gt :: gas :: code :: data :: addr :: caller :: _ => caseFrame e gt gas code data addr caller go
   | ["rdc", r, ml, mo, d, n] => caseRdc r ml mo d n go
   | ["gdb", d, st, sz] => caseGdb d st sz go
   | _ => "bad-op\tagree"
